@@ -16,7 +16,7 @@ import (
 // (C12: ids, grounding, completeness) and comparison with the locations the
 // specification prescribes (C14).
 type lexSpec struct {
-	Range     []int `json:"range"`     // l1, c1, l2, c2
+	Range     []any `json:"range"`     // l1, c1, l2, c2 (numbers, or digit strings for magnitudes beyond 2^53)
 	NodeLevel bool  `json:"nodeLevel"` // entry whose element is the node id
 	PropLevel bool  `json:"propLevel"` // entry whose element is a property IRI (never indexed)
 }
@@ -56,14 +56,25 @@ type rtObs struct {
 const smNS = "http://a.ml/vocabularies/document-source-maps#"
 const docNS = "http://a.ml/vocabularies/document#"
 
-func rangeString(r []int, style int) string {
+func rangeString(rr []any, style int) string {
+	r := make([]string, 4)
+	for i := range r {
+		switch v := rr[i].(type) {
+		case string:
+			r[i] = v
+		case float64:
+			r[i] = fmt.Sprintf("%d", int64(v))
+		default:
+			r[i] = fmt.Sprint(v)
+		}
+	}
 	switch style % 3 {
 	case 1:
-		return fmt.Sprintf("[(%d, %d)-(%d, %d)]", r[0], r[1], r[2], r[3])
+		return fmt.Sprintf("[(%s, %s)-(%s, %s)]", r[0], r[1], r[2], r[3])
 	case 2:
-		return fmt.Sprintf("[(%d,%d) - (%d,%d)]", r[0], r[1], r[2], r[3])
+		return fmt.Sprintf("[(%s,%s) - (%s,%s)]", r[0], r[1], r[2], r[3])
 	}
-	return fmt.Sprintf("[(%d,%d)-(%d,%d)]", r[0], r[1], r[2], r[3])
+	return fmt.Sprintf("[(%s,%s)-(%s,%s)]", r[0], r[1], r[2], r[3])
 }
 
 // withSourceMaps appends SourceMap / lexical entry / BaseUnitSourceInformation nodes in the shape AMF emits.
@@ -82,7 +93,7 @@ func withSourceMaps(graph []any, c rtCase) []any {
 			eid := fmt.Sprintf("%s/source-map/lexical/element_%d", id, k)
 			k++
 			entries = append(entries, map[string]any{"@id": eid})
-			graph = append(graph, map[string]any{"@id": eid, smNS + "element": exNS + "a1", smNS + "value": rangeString([]int{900, 901, 902, 903}, c.RangeStyle)})
+			graph = append(graph, map[string]any{"@id": eid, smNS + "element": exNS + "a1", smNS + "value": rangeString([]any{900, 901, 902, 903}, c.RangeStyle)})
 		}
 		if ls.NodeLevel {
 			eid := fmt.Sprintf("%s/source-map/lexical/element_%d", id, k)
@@ -152,6 +163,8 @@ func scalarString(v any) string {
 	switch x := v.(type) {
 	case string:
 		return x
+	case json.Number:
+		return x.String()
 	case nil:
 		return "null"
 	default:
@@ -221,6 +234,7 @@ func runReportTree(c rtCase) (o rtObs) {
 		return
 	}
 	dec := json.NewDecoder(strings.NewReader(rep))
+	dec.UseNumber() // numbers are compared digit by digit, not as float64
 	var doc []map[string]any
 	if e := dec.Decode(&doc); e != nil {
 		o.Valid = "not a JSON array of objects: " + e.Error()
